@@ -5,6 +5,16 @@ from props.C01 import set_group, MOD
 
 PROPERTY = "C03"
 LEVEL = "other"
+MANIFEST = dict(
+    text=("Mixed, small proved core. PROVED for all operands (SET world): the dispatcher for the 4 type pairs and the method form; inter_convexpolygon_convexPolyhedron (cut the polyhedron by the polygon's plane, then intersect with the polygon) "
+          "and the crossing-/parallel-planes branch of inter_convexpolygon_convexpolygon return exactly a cap b given their callees' contracts, with documented result types and no 'Bug detected' branch. "
+          "BOUNDED (labelled, not counted as proved): the coplanar polygon-polygon branch and inter_convexpolyhedron_convexpolyhedron (hash-set assembly, Euler check) on a catalogue of overlapping, nested, disjoint, vertex-/edge-/face-sharing "
+          "and half-lattice-translated pairs in oblique poses against exact half-space vertex enumeration (dimension, vertex set, faces, area / volume)."),
+    note=("The decisive hash-set handlers are out of the solvers' reach (their correctness depends on hash-based deduplication of whole polygons); they are only bounded-checked. A1, A4, A5; oracle and catalogue trusted."),
+    technique="contract-based deductive verification of the composition handlers (ground EUF, z3) + labelled bounded stand-in with exact vertex-enumeration oracle",
+    design_ref="DESIGN.md section 9 (C03)",
+)
+EXPLANATION = ("proved: dispatcher and 2 composition handlers for all operands; bounded stand-in (not counted as proved): coplanar polygon-polygon and polyhedron-polyhedron on a catalogue with an exact oracle")
 ASSUMES = ["A1", "A2", "A4", "A5", "A6"]
 
 SET_HANDLERS = [
@@ -28,3 +38,15 @@ def groups(tier):
             gs.append(Group("dispatch[%s,%s]" % (ta, tb), CI.dispatch_harness(ta, tb, calls), [MOD + ":intersection", "Geometry3D.geometry.body:GeoBody.intersection"],
                             stubs=CI.recording_stubs(calls) + CI.membership_stubs(), world="SET", timeout_s=60, patches=False))
     return gs
+
+
+def bounded(tier, seed):
+    from g3dvc import bounded as B
+    n = 150 if tier == "quick" else 2500
+    return [("polygon-polygon catalogue", B.convex_convex, (seed, "pp", n), 3000), ("polygon-polyhedron catalogue", B.convex_convex, (seed, "pg_ph", n), 3000),
+            ("polyhedron-polyhedron catalogue", B.convex_convex, (seed, "ph_ph", max(60, n // 3)), 3000)]
+
+
+def replay_case(case):
+    from g3dvc import bounded as B
+    return B.replay_intersection(case)
